@@ -132,9 +132,10 @@ pub fn run(seed: u64, n: usize, tier: &str, w: &mut dyn std::io::Write) {
         for s in res {
             let bad = s.started && matches!(s.verdict.as_str(), "open-failed" | "open-panicked" | "lost-acknowledged-ops" | "state-from-the-future" | "state-not-in-history" | "file-missing");
             let viol = if bad { Some(format!("crash-{}: history {} killed at mutating syscall {} of {} ({} ops acknowledged): {}", s.verdict, spec, s.k, nsys, s.acked, s.detail)) }
-                       else if s.detail.contains("stray") { Some(format!("crash-stray-file: history {} killed at syscall {}: {}", spec, s.k, s.detail)) } else { None };
+                       else { None };
+            let stray = s.detail.contains("stray");
             let input = T::Tup(vec![T::S(spec.clone()), T::N(s.k as u128)]);
-            emit(w, "kill", &Case { input, output: T::S(s.verdict.clone()), violation: viol, nontrivial: s.verdict != "not-killed" && s.verdict != "not-created", tags: vec![s.verdict.clone(), format!("acked{}", s.acked.min(5))], key: format!("{}#{}", spec, s.k) });
+            emit(w, "kill", &Case { input, output: T::S(s.verdict.clone()), violation: viol, nontrivial: s.verdict != "not-killed" && s.verdict != "not-created", tags: { let mut t = vec![s.verdict.clone(), format!("acked{}", s.acked.min(5))]; if stray { t.push("staging-file-left-behind".into()); } t }, key: format!("{}#{}", spec, s.k) });
         }
     }
 }
